@@ -146,12 +146,22 @@ impl<'a> PrettyPrinter<'a> {
         ctx: Context,
         math_attach: MathAttach<'a>,
     ) -> ArenaDoc<'a> {
+        // Whether the last node was a hashed expression that ends with an identifier.
+        let mut after_hashed_ident = false;
         self.convert_flow_like(ctx, math_attach.to_untyped(), |ctx, node| {
             if let Some(expr) = node.cast::<Expr>() {
-                FlowItem::tight(self.convert_expr(ctx, expr))
+                // A hashed expression is converted in code mode.
+                after_hashed_ident = ctx.mode.is_code()
+                    && matches!(node.kind(), SyntaxKind::Ident | SyntaxKind::FieldAccess);
+                FlowItem::new(self.convert_expr(ctx, expr), false, after_hashed_ident)
             } else if node.kind() == SyntaxKind::Space {
                 FlowItem::none()
+            } else if node.kind() == SyntaxKind::Underscore && after_hashed_ident {
+                // `#x _1` must not become `#x_1`, where `x_1` is a single identifier.
+                after_hashed_ident = false;
+                FlowItem::spaced_tight(self.convert_trivia_untyped(node))
             } else {
+                after_hashed_ident = false;
                 FlowItem::tight(self.convert_trivia_untyped(node))
             }
         })
